@@ -317,3 +317,38 @@ theorem opt_matches {a : Re} {w : List Byte} : Matches (opt a) w ↔ w = [] ∨ 
 
 end Re
 end FlexVerif
+
+namespace FlexVerif
+namespace Re
+
+/-- the byte sets occurring in a regex -/
+def clsSets : Re → List ByteSet
+  | .empty => []
+  | .eps => []
+  | .cls s => [s]
+  | .cat a b => clsSets a ++ clsSets b
+  | .alt a b => clsSets a ++ clsSets b
+  | .star a => clsSets a
+
+/-- two bytes that no set of `r` tells apart have the same partial derivatives -/
+theorem pderiv_congr (c c' : Byte) (r : Re) (h : ∀ s ∈ r.clsSets, s.mem c = s.mem c') :
+    pderiv c r = pderiv c' r := by
+  induction r with
+  | empty => rfl
+  | eps => rfl
+  | cls s => simp only [pderiv]; rw [h s (by simp [clsSets])]
+  | cat a b iha ihb =>
+    simp only [clsSets, List.mem_append] at h
+    simp only [pderiv]
+    rw [iha (fun s hs => h s (.inl hs)), ihb (fun s hs => h s (.inr hs))]
+  | alt a b iha ihb =>
+    simp only [clsSets, List.mem_append] at h
+    simp only [pderiv]
+    rw [iha (fun s hs => h s (.inl hs)), ihb (fun s hs => h s (.inr hs))]
+  | star a iha =>
+    simp only [clsSets] at h
+    simp only [pderiv]
+    rw [iha h]
+
+end Re
+end FlexVerif
